@@ -111,15 +111,16 @@ def signing_solver(m: dict[str, Any]) -> tuple[Any, list[Any], list[Any]]:
         generator_for_signature_type_f = kwargs["generator_for_signature_type_f"]
         signature_for_hash_type_f = m["signature_for_hash_type_f"]
         existing_script = kwargs.get("existing_script", b"")
+        # keys that are variables (pay-to-key-hash) have been solved by now: use their values
+        sec_keys = [solved_values.get(sec_key, sec_key) for sec_key in m["sec_list"]]
         existing_signatures, secs_solved = _find_signatures(
             existing_script,
             generator_for_signature_type_f,
             signature_for_hash_type_f,
             len(m["sig_list"]),
-            m["sec_list"],
+            sec_keys,
         )
 
-        sec_keys = m["sec_list"]
         signature_variables = m["sig_list"]
 
         signature_placeholder = kwargs.get(
